@@ -163,7 +163,7 @@ def W(rec, uid=None, props=('C10', 'C02', 'C09', 'C01'), sig=None, setup_extra='
 
 for rec in ['StorageHints', 'ClassType', 'Question', 'RR', 'QueryResponseSignature', 'MalformedMessageData', 'ResponseProcessingData',
             'QueryResponseExtended', 'BlockStatistics', 'BlockPreamble', 'AddressEventCount', 'BlockParameters']:
-    W(rec, props=('C10', 'C02', 'C01') + (('C09',) if rec in ('StorageHints', 'BlockParameters') else ()))
+    W(rec, props=('C10', 'C02', 'C01') + (('C09',) if rec in ('StorageHints', 'BlockParameters') else ()) + (('C04',) if rec == 'StorageHints' else ()))
 TSARGS = '  struct Timestamp earliest; unsigned long tps;\n'
 for rec in ['QueryResponse', 'MalformedMessage']:
     W(rec, setup_extra=TSARGS + '  __CPROVER_assume(tps >= 1);\n', args=['&obj', '&enc', '&earliest', '&tps'], gen_stubs=[TS_OFFSET], props=('C10', 'C02', 'C01', 'C17'), empty_ok=True)
